@@ -44,7 +44,19 @@ func minimise(t *testing.T, fam *Family, prop string, params any, seed uint64, t
 		var tree any
 		b, _ := json.Marshal(curP)
 		json.Unmarshal(b, &tree)
-		paths := collectPaths(tree, nil)
+		all := collectPaths(tree, nil)
+		var paths []jpath
+		for _, pt := range all {
+			if len(pt.path) != 1 {
+				continue
+			}
+			k, _ := pt.path[0].(string)
+			for _, ok := range fam.ShrinkKeys {
+				if ok == k {
+					paths = append(paths, pt)
+				}
+			}
+		}
 		// larger structures first: arrays before numbers, shallow before deep
 		sort.SliceStable(paths, func(i, j int) bool {
 			if paths[i].isArr != paths[j].isArr {
